@@ -27,7 +27,7 @@
 (*   partial products, qdf quotient degree factor, arities reduction arity *)
 (*   bits, dbits degree bits, rate rate bits, q query rounds, hiding, npi] *)
 (***************************************************************************)
-EXTENDS Integers, Sequences, FiniteSets, TLC
+EXTENDS Integers, Sequences, FiniteSets, SequencesExt, TLC
 
 B == 8                      \* bytes of a base field element / of a usize
 E == 16                     \* bytes of an extension element (D = 2)
@@ -79,8 +79,7 @@ Rounds(s, n) == IF n = 0 THEN <<>> ELSE QueryRound(s) \o Rounds(s, n - 1)
 Tail2(s) == << F("final_poly", FinalPolyLen(s), E, "implied"), F("pow_witness", 1, B, "implied") >>
 ProofGrammar(s) == Caps(s) \o Openings(s) \o CommitCaps(s) \o Rounds(s, s.q) \o Tail2(s)
                    \o << F("public_inputs", s.npi, B, "u64") >>
-RECURSIVE WalkSeq(_)
-WalkSeq(fs) == IF Len(fs) = 0 THEN 0 ELSE FieldBytes(Head(fs)) + WalkSeq(Tail(fs))
+WalkSeq(fs) == FoldSeq(LAMBDA f, acc : acc + FieldBytes(f), 0, fs)
 Walk(s) == WalkSeq(ProofGrammar(s))
 \* which lengths does the decoder take from the input?
 ReadFromInput(s) == LET g == ProofGrammar(s) IN {g[i].name : i \in {j \in 1..Len(g) : g[j].len # "implied"}}
